@@ -29,6 +29,11 @@
 (*                 on; "current": whatever the server holds now            *)
 (*   RegisterGuard TRUE: a connection accepted in an epoch that Stop has   *)
 (*                 ended is closed instead of registered; FALSE: served    *)
+(*   Handshakes / HsGuard: the TLS handshake as a state of its own.  A      *)
+(*                 connection is registered only after it; until then it   *)
+(*                 is known to the connection manager as a handshaking     *)
+(*                 transport (HsGuard) or to nobody (the code before the   *)
+(*                 repair: Stop left socket and goroutine behind).         *)
 (* Restart is Stop followed by Start inside one call.                      *)
 (***************************************************************************)
 EXTENDS Integers, Sequences, FiniteSets, TLC
@@ -36,6 +41,8 @@ CONSTANTS Programs,       \* set of controller programs: sequences over {"Start"
           Clients,        \* client ids
           Kinds,          \* listener kinds, e.g. {"plain"} or {"plain", "tls"}
           CloseTarget, RegisterGuard,
+          Handshakes,     \* TRUE: a client of kind "tls" is served only after its handshake, which the CLIENT drives (and may never finish)
+          HsGuard,        \* TRUE: Stop also closes the transports whose handshake is still running (ConnManager.handshakes)
           Record          \* TRUE: keep the script (history) of the path; FALSE: design-level checking only (far fewer states)
 VARIABLES prog, ci, cpc, running, epoch, gen, cur, lst, loops, cl, registry, script
 vars == <<prog, ci, cpc, running, epoch, gen, cur, lst, loops, cl, registry, script>>
@@ -75,7 +82,8 @@ CallStop ==
   /\ cpc = "ready" /\ Call \in {"Stop", "Restart"}
   /\ running' = FALSE
   /\ epoch' = epoch + 1                                     \* ConnManager.Stop starts a new epoch
-  /\ cl' = [x \in Clients |-> IF x \in registry THEN [cl[x] EXCEPT !.st = "srvclosed"] ELSE cl[x]]   \* registered sockets closed
+  /\ cl' = [x \in Clients |-> IF x \in registry \/ (HsGuard /\ cl[x].st = "handshaking")
+                              THEN [cl[x] EXCEPT !.st = "srvclosed"] ELSE cl[x]]   \* registered sockets (and handshaking transports) closed
   /\ registry' = {}
   /\ cpc' = "stop.conns-closed"
   /\ Log(<<"call", Call>>)
@@ -129,8 +137,26 @@ Orphan(x) ==
   /\ cl' = [cl EXCEPT ![x].st = "closed"]
   /\ UNCHANGED <<prog, ci, cpc, running, epoch, gen, cur, lst, loops, registry, script>>
 
+\* receiveTLS: the accepted transport is remembered as handshaking, unless Stop has ended the epoch it was accepted in
+HsBegin(x) ==
+  /\ Handshakes /\ cl[x].st = "accepted" /\ cl[x].k = "tls"
+  /\ IF HsGuard /\ cl[x].e # epoch THEN cl' = [cl EXCEPT ![x].st = "closed"] ELSE cl' = [cl EXCEPT ![x].st = "handshaking"]
+  /\ UNCHANGED <<prog, ci, cpc, running, epoch, gen, cur, lst, loops, registry, script>>
+
+\* the client completes the handshake (its choice: no fairness, it may never happen)
+HsDone(x) ==
+  /\ Handshakes /\ cl[x].st = "handshaking"
+  /\ cl' = [cl EXCEPT ![x].st = "shaken"]
+  /\ UNCHANGED <<prog, ci, cpc, running, epoch, gen, cur, lst, loops, registry, script>>
+
+\* ... or gives up
+HsAbandon(x) ==
+  /\ Handshakes /\ cl[x].st = "handshaking"
+  /\ cl' = [cl EXCEPT ![x].st = "closed"]
+  /\ UNCHANGED <<prog, ci, cpc, running, epoch, gen, cur, lst, loops, registry, script>>
+
 Register(x) ==
-  /\ cl[x].st = "accepted"
+  /\ IF Handshakes /\ cl[x].k = "tls" THEN cl[x].st = "shaken" ELSE cl[x].st = "accepted"
   /\ IF RegisterGuard /\ cl[x].e # epoch                    \* accepted in an epoch that Stop has ended
      THEN cl' = [cl EXCEPT ![x].st = "closed"] /\ UNCHANGED registry
      ELSE cl' = [cl EXCEPT ![x].st = "registered"] /\ registry' = registry \cup {x}
@@ -153,6 +179,7 @@ ConnEnd(x) ==
 Next == \/ CallStart \/ StartSpawn \/ CallStop \/ StopClose
         \/ \E l \in loops : LoopErr(l) \/ LoopExit(l) \/ \E x \in Clients : LoopAccept(l, x)
         \/ \E x \in Clients : Register(x) \/ ClientClose(x) \/ ConnEnd(x) \/ Orphan(x) \/ \E k \in Kinds : Dial(x, k)
+        \/ \E x \in Clients : HsBegin(x) \/ HsDone(x) \/ HsAbandon(x)
 Spec == Init /\ [][Next]_vars
 
 ---------------------------------------------------------------------------
@@ -164,7 +191,7 @@ ServingWhileRunning ==
 \* while running the registry holds exactly the connections being served
 RegistryExact == registry = {x \in Clients : cl[x].st = "registered"}
 \* after Stop returned and everything in flight has settled: nothing is left
-Settled == ~(\E l \in loops : ENABLED LoopErr(l) \/ ENABLED LoopExit(l)) /\ ~(\E x \in Clients : ENABLED Register(x) \/ ENABLED ConnEnd(x) \/ ENABLED Orphan(x))
+Settled == ~(\E l \in loops : ENABLED LoopErr(l) \/ ENABLED LoopExit(l)) /\ ~(\E x \in Clients : ENABLED Register(x) \/ ENABLED ConnEnd(x) \/ ENABLED Orphan(x) \/ ENABLED HsBegin(x))   \* (not HsDone: the client's move)
 AfterStop == ci > 1 /\ cpc = "ready" /\ prog[ci - 1] = "Stop"
 StopPostcondition ==
   (AfterStop /\ Settled) => /\ \A g \in DOMAIN lst : lst[g] = "closed"
